@@ -148,3 +148,70 @@ Definition result_at (r : option dmap) (c : positive) : option dres :=
 
 Definition terms_ok (l : list (Z * Z)) : Prop :=
   Forall (fun ct => in64 (fst ct) /\ in64 (snd ct) /\ 0 <= fst ct /\ 0 <= snd ct) l.
+
+(* ---- where TaskInfo.DRAResreq comes from: pkg/scheduler/cache/cache.go
+        addDRAResource 1905-1922, buildTaskDRAInfo 1924-2028 ---- *)
+
+(* a DeviceRequest that survives the filters of buildTaskDRAInfo (Exactly != nil, not FirstAvailable,
+   allocationMode != All, DeviceClassName != ""), with count 0 already replaced by 1 *)
+Record ereq := mkE { e_class : positive; e_count : Z; e_caps : gmap positive Z }.
+
+(* the map part of addDRAResource: Count accumulates with SaturatingAdd (since the fix recorded in
+   known-findings.json; before it was a plain wrapping +=), capacities add capacity * count exactly *)
+Definition add_dra_map (dst : dmap) (rq : ereq) : dmap :=
+  let cur := default (mkD 0 ∅) (dst !! e_class rq) in
+  <[e_class rq := mkD (sat_add (d_count cur) (e_count rq))
+                      (cap_add (d_caps cur) ((fun x => x * e_count rq) <$> e_caps rq))]> dst.
+
+(* addDRAResource allocates the Capacity map only when the FIRST request of a device class carries
+   capacities; a later request of that class with capacities then writes into a nil map and the Go
+   code panics.  [s_nil] = the classes whose Capacity map is nil; None = that panic. *)
+Record dstate := mkS { s_map : dmap; s_nil : gset positive }.
+
+Definition add_dra_resource (st : dstate) (rq : ereq) : option dstate :=
+  let fresh := bool_decide (s_map st !! e_class rq = None) in
+  let nil' := if fresh && bool_decide (e_caps rq = ∅) then {[e_class rq]} ∪ s_nil st else s_nil st in
+  if negb (bool_decide (e_caps rq = ∅)) && bool_decide (e_class rq ∈ nil') then None
+  else Some (mkS (add_dra_map (s_map st) rq) nil').
+
+Definition add_all (st : option dstate) (rqs : list ereq) : option dstate :=
+  fold_left (fun acc rq => match acc with Some s => add_dra_resource s rq | None => None end) rqs st.
+
+(* raw DeviceRequest: kind 0 = Exactly with ExactCount; any other kind is skipped *)
+Record rawreq := mkRaw { w_kind : Z; w_class : positive; w_count : Z; w_caps : gmap positive Z }.
+Definition effective (w : rawreq) : list ereq :=
+  if w_kind w =? 0 then [mkE (w_class w) (if w_count w =? 0 then 1 else w_count w) (w_caps w)] else [].
+Definition effective_all (ws : list rawreq) : list ereq := flat_map effective ws.
+
+Inductive build_result :=
+  | BuildPanic                                   (* assignment to entry in nil map *)
+  | BuildError                                   (* a referenced (non-template) claim is not in the cache *)
+  | BuildOk (r : option (dmap * gmap positive dmap)).  (* None = (nil, nil, nil) *)
+
+(* the loop over pod.Spec.ResourceClaims: [claims] = the ResourceClaim cache, [refs] = the pod's claims *)
+Fixpoint build_loop (claims : gmap positive (list rawreq)) (refs : list positive)
+         (result : dstate) (per : gmap positive dmap) : build_result :=
+  match refs with
+  | [] => if bool_decide (per = ∅) then BuildOk None else BuildOk (Some (s_map result, per))
+  | c :: rest =>
+    if bool_decide (is_Some (per !! c)) then build_loop claims rest result per
+    else match claims !! c with
+         | None => BuildError
+         | Some ws =>
+           let rqs := effective_all ws in
+           match add_all (Some (mkS ∅ ∅)) rqs, add_all (Some result) rqs with
+           | Some pc, Some result' =>
+             build_loop claims rest result' (if bool_decide (s_map pc = ∅) then per else <[c := s_map pc]> per)
+           | _, _ => BuildPanic
+           end
+         end
+  end.
+
+Definition build_task_dra (claims : gmap positive (list rawreq)) (refs : list positive) : build_result :=
+  build_loop claims refs (mkS ∅ ∅) ∅.
+
+(* the map part alone (what the theorems speak about) *)
+Definition add_map_all (dst : dmap) (rqs : list ereq) : dmap := fold_left add_dra_map rqs dst.
+Definition class_counts (c : positive) (rqs : list ereq) : list Z :=
+  flat_map (fun rq => if bool_decide (e_class rq = c) then [e_count rq] else []) rqs.
+Definition sum_list (l : list Z) : Z := fold_right Z.add 0 l.
